@@ -21,18 +21,32 @@ var (
 var r = realrand.New(realrand.NewSource(1))
 
 // Reseed is called by the harness at the start of every execution.
+//go:norace
 func Reseed(seed int64) { r = realrand.New(realrand.NewSource(seed)) }
 
+//go:norace
 func Seed(seed int64)      { Reseed(seed) }
+//go:norace
 func Intn(n int) int       { rt.RandTick(); return r.Intn(n) }
+//go:norace
 func Int() int             { rt.RandTick(); return r.Int() }
+//go:norace
 func Int31() int32         { rt.RandTick(); return r.Int31() }
+//go:norace
 func Int31n(n int32) int32 { rt.RandTick(); return r.Int31n(n) }
+//go:norace
 func Int63() int64         { rt.RandTick(); return r.Int63() }
+//go:norace
 func Int63n(n int64) int64 { rt.RandTick(); return r.Int63n(n) }
+//go:norace
 func Uint32() uint32       { rt.RandTick(); return r.Uint32() }
+//go:norace
 func Uint64() uint64       { rt.RandTick(); return r.Uint64() }
+//go:norace
 func Float64() float64     { rt.RandTick(); return r.Float64() }
+//go:norace
 func Float32() float32     { rt.RandTick(); return r.Float32() }
+//go:norace
 func Perm(n int) []int     { rt.RandTick(); return r.Perm(n) }
+//go:norace
 func Shuffle(n int, swap func(i, j int)) { rt.RandTick(); r.Shuffle(n, swap) }
